@@ -27,6 +27,7 @@
 #include "detail/_containers_helpers.h"
 #include "cache_aligned_allocator.h"
 #include <vector>
+#include <exception>
 #include <iterator>
 #include <functional>
 #include <utility>
@@ -199,6 +200,10 @@ public:
     bool try_pop( value_type& value ) {
         cpq_operation op_data(value, POP_OP);
         my_aggregator.execute(&op_data);
+        if (op_data.exception) {
+            // The assignment to value threw (in whichever thread handled the batch); the element is still in the queue
+            std::rethrow_exception(op_data.exception);
+        }
         return op_data.status == SUCCEEDED;
     }
 
@@ -234,6 +239,8 @@ private:
             value_type* elem;
             size_type sz;
         };
+        // Exception thrown by the assignment of the popped element to the caller's object, if any
+        std::exception_ptr exception{};
         cpq_operation( const value_type& value, operation_type t )
             : type(t), elem(const_cast<value_type*>(&value)) {}
     }; // class cpq_operation
@@ -249,6 +256,24 @@ private:
             my_cpq->handle_operations(op_list);
         }
     }; // class functor
+
+    // Hands an element over to the caller of try_pop. If the assignment throws, the element stays where it is, the
+    // exception travels to that caller only, and the rest of the batch is handled as usual.
+    bool assign_popped( cpq_operation* op, value_type& from ) {
+#if TBB_USE_EXCEPTIONS
+        try {
+            *(op->elem) = std::move(from);
+            return true;
+        } catch(...) {
+            op->exception = std::current_exception();
+            op->status.store(uintptr_t(FAILED), std::memory_order_release);
+            return false;
+        }
+#else
+        *(op->elem) = std::move(from);
+        return true;
+#endif
+    }
 
     void handle_operations( cpq_operation* op_list ) {
         call_itt_notify(acquired, this);
@@ -275,11 +300,12 @@ private:
                     my_compare(data[0], data.back()))
                 {
                     // there are newly pushed elems and the last one is higher than top
-                    *(tmp->elem) = std::move(data.back());
-                    my_size.store(my_size.load(std::memory_order_relaxed) - 1, std::memory_order_relaxed);
-                    tmp->status.store(uintptr_t(SUCCEEDED), std::memory_order_release);
+                    if (assign_popped(tmp, data.back())) {
+                        my_size.store(my_size.load(std::memory_order_relaxed) - 1, std::memory_order_relaxed);
+                        tmp->status.store(uintptr_t(SUCCEEDED), std::memory_order_release);
 
-                    data.pop_back();
+                        data.pop_back();
+                    }
                     __TBB_ASSERT(mark <= data.size(), nullptr);
                 } else { // no convenient item to pop; postpone
                     tmp->next.store(pop_list, std::memory_order_relaxed);
@@ -320,12 +346,12 @@ private:
                     my_compare(data[0], data.back()))
                 {
                     // there are newly pushed elems and the last one is higher than top
-                    *(tmp->elem) = std::move(data.back());
-                    my_size.store(my_size.load(std::memory_order_relaxed) - 1, std::memory_order_relaxed);
-                    tmp->status.store(uintptr_t(SUCCEEDED), std::memory_order_release);
-                    data.pop_back();
-                } else { // extract top and push last element down heap
-                    *(tmp->elem) = std::move(data[0]);
+                    if (assign_popped(tmp, data.back())) {
+                        my_size.store(my_size.load(std::memory_order_relaxed) - 1, std::memory_order_relaxed);
+                        tmp->status.store(uintptr_t(SUCCEEDED), std::memory_order_release);
+                        data.pop_back();
+                    }
+                } else if (assign_popped(tmp, data[0])) { // extract top and push last element down heap
                     my_size.store(my_size.load(std::memory_order_relaxed) - 1, std::memory_order_relaxed);
                     tmp->status.store(uintptr_t(SUCCEEDED), std::memory_order_release);
                     reheap();
